@@ -11,6 +11,7 @@ COMMON_TRUSTED = [
 
 # (file under coq/Gen, acra-vh arguments that print it): regenerated from /repo on every run
 GENERATORS = [
+    ("KeyStates.v", ["keystates"]),
     ("TokenConsts.v", ["tokenconsts"]),
     ("MaskConsts.v", ["maskconsts"]),
     ("WireConsts.v", ["wireconsts"]),
@@ -23,6 +24,28 @@ def dom(name, run_mod, nq, nt, model=True):
 
 
 PROPS = {
+    "C06": {
+        "domains": [
+            {
+                "name": "c06",
+                "run_vo": "Model/RunKeyRotation.vo",
+                "n_quick": 60,
+                "n_thorough": 900,
+                "model": True
+            }
+        ],
+        "trusted": [
+            "harness/vh/memfs.go: in-memory implementation of acra's filesystem.Storage (os semantics of ReadDir order, hard links, rename, O_EXCL copy) under the real keystore v1; keystore v2 runs on acra's own backend.NewInMemory",
+            "key versions are identified by reading the new key through a second, uncached keystore object right after each generation",
+            "modelled, not verified: master-key encryption of stored keys (C07), ListKeys (current-key listing), public-key reads, export/import, key ring signatures and the directory/redis back ends",
+            "Gen/KeyStates.v regenerated from /repo (asn1.NoKey, firstSeqnum via hook, api.KeyStateTransitionValid table, cache size constants)"
+        ],
+        "assumptions": [
+            "clock readings used to name rotated key files of keystore v1 are strictly increasing (premise increasing_from of the v1 theorems; the harness checks it on every history)",
+            "labels of generated key versions are pairwise distinct where a theorem says 'that key and no other' (premise NoDup (gen_labels ops))",
+            "keystore v1 offers nothing from 'read all keys' while a slot has no current key (spec parameter hide = True; known finding v1-all-keys-fail-without-current)"
+        ]
+    },
     "C09": {
         "domains": [
             {
